@@ -36,3 +36,7 @@ std::string c11_judge(const bytes &file, const bytes &key, int T, const DV &r);
 
 // key of the seed-corpus files of the C11 libFuzzer target
 static const uint8_t FUZZ_KEYA[16] = {0x10, 0x21, 0x32, 0x43, 0x54, 0x65, 0x76, 0x87, 0x98, 0xa9, 0xba, 0xcb, 0xdc, 0xed, 0xfe, 0x0f};
+
+// the base file of a tamper case: built by the independent format specification, or (toolbase) written by
+// execute_encrypt itself in a forked child under the canonical schedule; empty if that encryption failed
+bytes base_file(const EncCase &e, bool toolbase);
